@@ -166,8 +166,8 @@ def plan_for(pid, tier, seed):
     if pid == "C16":
         # the callback-taking algorithms as step machines with a panic at every callback: the code's variants must
         # satisfy the laws, the pre-fix / seeded variants must be refuted
-        ps = [dict(module="PanicSafe", cfg="PanicSafe_" + c, workers=2, timeout=600, mem="2g") for c in ("df", "tr", "sr", "dd")]
-        ps += [dict(module="PanicSafe", cfg="PanicSafe_" + c, workers=2, timeout=600, mem="2g", expect_violation=True) for c in ("df_bad", "tr_bad", "sr_bad", "dd_bad")]
+        ps = [dict(module="PanicSafe", cfg="PanicSafe_" + c, workers=2, timeout=600, mem="2g") for c in ("df", "tr", "sr", "dd", "sp")]
+        ps += [dict(module="PanicSafe", cfg="PanicSafe_" + c, workers=2, timeout=600, mem="2g", expect_violation=True) for c in ("df_bad", "tr_bad", "sr_bad", "dd_bad", "sp_bad")]
         return dict(level="model_checking", mc=[COLL_MC] + ps, special=[],
                     traces=coll_corpus(tier, seed, COLL_GENS[pid]) + str_corpus(tier, seed, ["spanics", "srandom"])
                            + arena_corpus(tier, seed, ["apanics"]),
